@@ -188,6 +188,11 @@ func c07Worker(w *core.WorkerCtx) {
 		// validated while the truncation runs
 		c01TruncationRace(w, []string{"C07"})
 	}
+	if w.Batch == 3 || (w.Thorough() && w.Batch%3 == 0) {
+		// three truncations in a row, the third one over a storage that already holds well over two thousand entries
+		// (vertices and funds of the first two): "also across repeated truncations"
+		longScenario(w, []string{"C07"}, 800, ledger.LongOpts{Nodes: 1, Size: 1040, Truncations: 3, Between: 1150, PostOps: 20})
+	}
 	n := w.Pick(1, 3)
 	for k := 0; k < n; k++ {
 		longScenario(w, []string{"C07"}, k, c07Opts(w, k))
